@@ -32,6 +32,17 @@ FIXED = [
  ("F33", "C13", "fix: shallow_equal_ignore_attributes with a repeated name", "shallow_equal_ignore_attributes(a,b,&[p,p]) underflowed (panic with overflow checks, wrong false without)"),
  ("F34", "C13", "fix: deep_equal of attribute or namespace nodes compares their values", "deep_equal of two attribute (or namespace) nodes was always true"),
  ("F38", "C18", "fix: remove_insignificant_whitespace only treats XML white space", "a text node consisting of U+00A0 (or other non-XML Unicode space) was removed / did not protect sibling whitespace"),
+ ("F05", "C02", "fix: xml:id normalization strips all leading and trailing spaces", "xml:id=\"  a   b  \" was normalised to \" a b \" (one space stripped per side)"),
+ ("F06", "C02", "fix: normalize line ends inside CDATA sections", "CR / CRLF inside a CDATA section was kept (no line-end normalisation)"),
+ ("F07", "C03", "fix: reject attributes duplicated by expanded name", "<a xmlns:p=\"u\" xmlns:q=\"u\" p:x=\"1\" q:x=\"2\"/> was accepted (two attribute nodes with one name)"),
+ ("F08", "C03", "fix: reject a prefix (or the default namespace) declared twice", "<a xmlns:p=\"u\" xmlns:p=\"v\"/> and <a xmlns=\"u\" xmlns=\"v\"/> were accepted"),
+ ("F09", "C03", "fix: reject character references to non-XML characters", "&#0; &#x1; &#xFFFE; were accepted; &#+65; was accepted"),
+ ("F11", "C03", "fix: the end tag must repeat the qualified name", "<p:a xmlns:p=\"u\" xmlns:q=\"u\"></q:a> was accepted (end tag matched by expanded name)"),
+ ("F12", "C03", "fix: parse_fragment returns an error for a close tag without an open element", "parse_fragment(\"</a>\") panicked: Cannot close document node"),
+ ("F13", "C03", "fix: parse_bytes falls back to UTF-8 instead of panicking", "parse_bytes panicked on encoding=\"foo\" and on empty input"),
+ ("F47", "C03", "fix: an empty CDATA section does not create an empty text node", "<a><![CDATA[]]></a> was parsed into an element with an empty text node (lost on serialise + reparse)"),
+ ("F48", "C03", "fix: parse_fragment rejects input that ends inside a start tag", "parse_fragment(\"<x\") was accepted (pending start tag silently dropped)"),
+ ("F49", "C03", "fix: reject processing instructions with the reserved target", "<?XML a?> and <?xml/x?> were accepted as processing instructions; the latter could not be reparsed after serialisation"),
  ("F31a", "C06", "fix: create_missing_prefixes returns an error for a document without an element", "create_missing_prefixes panicked on a document without element"),
 ]
 OPEN = [
